@@ -560,6 +560,11 @@ func (c *ctx) evalBin(b *gen.Bin) Value {
 	panic("ref: bad operator " + b.Op)
 }
 
+// Compare applies a comparison operator to two already evaluated values.
+func Compare(env *Env, op string, l, r Value) bool {
+	return (&ctx{env: env}).compare(op, l, r)
+}
+
 // Round is XPath round(): closest integer, ties toward +infinity.
 func Round(f float64) float64 {
 	if math.IsNaN(f) || math.IsInf(f, 0) {
@@ -724,12 +729,20 @@ func (c *ctx) evalCall(f *gen.Call) Value {
 			sb.WriteString(c.toStr(ev(i)))
 		}
 		return strV(sb.String())
-	case "starts-with":
-		return boolV(strings.HasPrefix(c.toStr(ev(0)), c.toStr(ev(1))))
-	case "ends-with":
-		return boolV(strings.HasSuffix(c.toStr(ev(0)), c.toStr(ev(1))))
-	case "contains":
-		return boolV(strings.Contains(c.toStr(ev(0)), c.toStr(ev(1))))
+	case "starts-with", "ends-with", "contains":
+		// the package deliberately rejects non-string arguments here (the
+		// suite pins contains(0, 0) raising an error): no defined value
+		if a, b := ev(0), ev(1); (a.T != TStr && a.T != TNodeSet) || b.T != TStr {
+			return undef()
+		}
+		a, b := c.toStr(ev(0)), c.toStr(ev(1))
+		switch f.Name {
+		case "starts-with":
+			return boolV(strings.HasPrefix(a, b))
+		case "ends-with":
+			return boolV(strings.HasSuffix(a, b))
+		}
+		return boolV(strings.Contains(a, b))
 	case "substring-before":
 		a, b := c.toStr(ev(0)), c.toStr(ev(1))
 		if i := strings.Index(a, b); i >= 0 {
